@@ -23,6 +23,7 @@ sys.path.insert(0, os.path.dirname(os.path.dirname(os.path.abspath(__file__))))
 from vlib import core, netgen
 sys.path.insert(0, os.path.join(core.VERIF, 'tools'))
 import tr_stamps as TS
+import tr_sources as SRC
 
 PID = 'C01'
 MANIFEST = {
@@ -30,15 +31,19 @@ MANIFEST = {
             'component (currents drawn per node, constitutive residual per branch row) for arbitrary node/branch indices '
             '(grounded, coinciding), parameters and any characteristic-0 field; by induction over the netlist the assembled '
             'MNA system holds iff KCL and every constitutive relation hold; the unknown-ordering model has no duplicates and is '
-            'complete.  Assembly, ordering, reporting and the solver contract (A x = Z for each solver method) are tied to the '
-            'real code by evaluating the model inside Coq on generated netlists.',
+            'complete.  The value definitions of the independent-source classes are regenerated from lcapy/oneport.py and proved equal '
+            'to their specification (an ac source of amplitude a and phase phi is the phasor a E(j phi), for EVERY function E).  '
+            'Assembly, ordering, reporting, the per-kind source values and the solver contract (A x = Z for each solver method) are tied to the '
+            'real code by evaluating the model inside Coq on generated netlists, over Q for the dc/Laplace kinds and over the '
+            'Gaussian rationals Q(i) for the phasor (ac) kinds.',
     'note': 'Trusted: Coq kernel/vm_compute; tools/tr_stamps.py; spec coq/theory/Circuit.v (physical semantics, App. B); hand models '
             'coq/theory/MNA.v + props/C01model.v (ordering, assembly, reporting) validated by correspondence; sympy linear solve, '
             'eps-limit and node merging are modelled as oracles whose contract is checked per case, not verified; component '
             'parameters (Y, Z, Isc, Voc per analysis kind) are inputs of the theorem and are checked against textbook laws by the search oracle.',
-    'technique': 'Coq proof over stamps translated from source + induction over netlists + in-Coq correspondence evaluation + textbook-law search oracle',
+    'technique': 'Coq proof over stamps and source definitions translated from source + induction over netlists + in-Coq correspondence evaluation (Q and Q(i)) + textbook-law search oracle',
 }
 
+SRC_OK = [False]
 KINDS = {'dc': 'KDc', 's': 'KS', 'ivp': 'KIvp', 'laplace': 'KLaplace', 'transient': 'KTransient', 't': 'KT', 'time': 'KTime'}
 CNAMES = ['RC', 'L', 'V', 'AM', 'I', 'VCVS', 'VCCS', 'CCCS', 'CCVS', 'K', 'TF', 'GY', 'TL', 'TPA', 'TPB', 'TPG', 'TPH',
           'TPY', 'TPZ', 'TR', 'SPpp', 'SPpm', 'SPppp', 'SPpmm', 'SPppm', 'RV', 'Dummy']
@@ -372,7 +377,7 @@ def oracle(case, kd, s0):
 
 
 # ---- cases file ------------------------------------------------------------------
-HEADER = ('Require Import LT.FieldSec LT.QcI LT.Circuit LT.MNA Gen.StampsGen Gen.C01model.\n'
+HEADER = ('Require Import LT.FieldSec LT.QcI LT.Circuit LT.MNA LT.Sources Gen.StampsGen Gen.C01model Gen.SourcesGen.\n'
           'Local Open Scope Z_scope.\n')
 
 
@@ -407,6 +412,37 @@ def build_checks(ci, case, wres, tr, res, point_eps):
             raws.append(r)
         if not ok:
             continue
+        # independent sources: the value the sub-analysis uses (pVoc / pIsc of the sub-netlist element) must be
+        # the value the regenerated class definition gives for the ORIGINAL netlist arguments
+        if SRC_OK[0]:
+            byname = {e['name']: e for e in kd['elements']}
+            for sr in wres.get('sources', []):
+                e = byname.get(sr.get('name'))
+                if e is None or 'error' in sr or sr['cls'] not in SRC.CLASSES:
+                    continue
+                exp = e['params'].get('pVoc' if sr['type'] == 'V' else 'pIsc')
+                args = (sr['args'] + [None, None, None])[:3]
+                given = (sr['given'] + [False, False, False])[:3]
+                if not valid(exp, F) or any(g and not valid(a, F) for a, g in zip(args, given)) or not given[0]:
+                    res.count('source_value_not_rational')
+                    continue
+                if sr['cls'] in ('Vac', 'Iac'):
+                    if not given[2] or (given[1] and (Fraction(str(args[1]).partition('|')[0]) * 2).denominator != 1) \
+                            or (given[1] and '|' in str(args[1])):
+                        res.count('source_phase_not_quarter_turn_or_symbolic_omega')
+                        continue
+                try:
+                    wlit = q(str(Fraction(kind)), F) if F == 'I' else ZERO
+                except Exception:
+                    continue
+                slit = ('(cimul cii %s)' % wlit) if F == 'I' else q(case['s0'], F)
+                al = [q(a, F) if g else ZERO for a, g in zip(args, given)]
+                desc = '(gen_%s %s %s %s %s %s %s %s %s %s %s)' % (
+                    sr['cls'], KN, 'cii' if F == 'I' else ZERO, ZERO, 'Equarter' if F == 'I' else '(fun x => x)',
+                    al[0], al[1], al[2], b(given[0]), b(given[1]), b(given[2]))
+                checks.append(('%d/%s/src_%s' % (ci, kind, sr['name']), None,
+                               'src_ok %s %s %s %s %s %s %s' % (KN, EQ, desc, kindc, slit, wlit, q(exp, F))))
+                res.count('source_values_compared')
         es = 'es_%d_%s' % (ci, kt)
         defn = 'Definition %s : list (raw %s) := [%s].' % (es, KN, ';\n  '.join(raws))
         # unknown ordering
@@ -529,12 +565,14 @@ def log(msg):
 def run(tier='quick', replay=None):
     res = core.Result(PID, tier)
     rng = random.Random(core.seed() * 7919 + 1)
-    core.ensure_theory(['FieldSec', 'Circuit', 'MNA', 'CircuitLinear'])
+    core.ensure_theory(['FieldSec', 'QcI', 'Circuit', 'MNA', 'CircuitLinear', 'Sources'])
     w = core.Work(PID)
     violations = []
     try:
         res.trusted = ['Coq 8.16.1 kernel + vm_compute',
                        'translator tools/tr_stamps.py (sha256 %s)' % core.sha256_file(os.path.join(core.VERIF, 'tools', 'tr_stamps.py'))[:16],
+                       'translator tools/tr_sources.py (sha256 %s)' % core.sha256_file(os.path.join(core.VERIF, 'tools', 'tr_sources.py'))[:16],
+                       'hand model of the per-kind selection of source values coq/theory/Sources.v value_at (validated by correspondence)',
                        'specification coq/theory/Circuit.v (physical semantics of each component kind)',
                        'hand models coq/theory/MNA.v, coq/props/C01model.v (validated by correspondence)',
                        'oracles (modelled, contract checked per case): sympy matrix solve, eps -> 0 limit, node merging/indexing']
@@ -551,6 +589,28 @@ def run(tier='quick', replay=None):
             res.failed_obl.append(('translate', 'lcapy/mnacpts.py', str(e)))
             res.obligations += 1
             tr = None
+        srct = None
+        try:
+            srct = SRC.SrcTranslator(os.path.join(core.REPO, 'lcapy', 'oneport.py'))
+            srct.translate_all()
+            texts['SourcesGen.v'] = SRC.emit(srct)
+        except SRC.Untranslatable as e:
+            res.failed_obl.append(('translate_sources', 'lcapy/oneport.py', str(e)))
+            res.obligations += 1
+            srct = None
+        SRC_OK[0] = False
+        if srct is not None:
+            w.write('SourcesGen.v', texts['SourcesGen.v'])
+            ok, out, secs = core.coqc(w.dir, 'SourcesGen.v')
+            if not ok:
+                res.failed_obl.append(('SourcesGen', 'SourcesGen.v', out[-800:]))
+                res.obligations += 1
+            else:
+                SRC_OK[0] = True
+                texts['C01src.v'] = open(os.path.join(core.VERIF, 'coq', 'props', 'C01src.v')).read()
+                w.write('C01src.v', texts['C01src.v'])
+                rs = core.coqc_many(w.dir, ['C01src.v'], timeout=300)
+                res.coq_results(w.dir, rs, {'C01src.v': texts['C01src.v']})
         model_ok = False
         if tr is not None:
             w.write('StampsGen.v', texts['StampsGen.v'])
